@@ -670,8 +670,11 @@ static Type *pointers(Token **rest, Token *tok, Type *ty) {
   while (consume(&tok, tok, "*")) {
     ty = pointer_to(ty);
     while (equal(tok, "const") || equal(tok, "volatile") || equal(tok, "restrict") ||
-           equal(tok, "__restrict") || equal(tok, "__restrict__"))
+           equal(tok, "__restrict") || equal(tok, "__restrict__") || equal(tok, "_Atomic")) {
+      if (equal(tok, "_Atomic"))
+        ty->is_atomic = true;
       tok = tok->next;
+    }
   }
   *rest = tok;
   return ty;
